@@ -42,7 +42,31 @@
    AsyncColumn, DedentCont and LambdaInClass break the property text on code positions
    (findings C18/ctx:*, now "fixed").  A deviation that is NOT in Fixed is excused in
    CtxOK by the named predicate KnownDeviation; with all three fixed CtxOK = CtxStrict.
-   CtxLiteral (expected to fail) documents HeaderSelf.                                *)
+   CtxLiteral (expected to fail) documents HeaderSelf.
+
+   NESTS (anonymous scopes).  An item of kind "nest" is  vN = <expression>  where the
+   expression is a TREE of anonymous scopes: list / set / dict comprehensions, generator
+   expressions and lambdas, each of which may hold another one in its element/body
+   (slot "e") and in its first iterable / parameter default (slot "i"), to MaxNest
+   nodes (= nesting depth up to MaxNest).  The tree is grown node by node (GrowNest), in
+   preorder, so that every tree has one construction path.  Python: these scopes are
+   not classes or functions with a name -- the Reference stays geometric over the
+   def/class table: a definition or reference written anywhere in such an expression
+   has the chain of the def/class bodies that contain it (comprehensions and lambdas
+   are transparent); a lambda that really encloses the name may be reported on the way
+   (a lambda is a function), in nesting order, but nothing else; every Name on the way
+   must be usable (UNUSABLE marks a parent() result whose .name/.type/.line raise).
+   Design: TreeContextMixin.create_context builds one CompForContext per enclosing
+   comp_for -- except when the node lies in the comp_for's last child (the iterable):
+   then the comprehension is left out -- and a function context per lambdef;
+   BaseName.parent() leaves ALL nameless (comprehension) contexts (`while`, switch
+   "CompWhile": without it only one is left and the second is handed on as a Name
+   without a name), answers a lambda by its LambdaName, whose parent() continues with
+   LambdaName.parent_context, which FunctionValue.from_context stripped of classes:
+     LambdaParent  (NOT repaired, finding C18/parent-chain:lambda-in-class): the chain
+                  of a name inside a lambda written directly in a class body leaves out
+                  the class(es).  Excused in ParentOK by KnownParentDeviation while
+                  "LambdaParent" is not in Fixed.                                      *)
 EXTENDS Naturals, Sequences, FiniteSets, TLC, Json, SequencesExt
 
 ---------------------------------------------------------------------------
@@ -122,22 +146,79 @@ Shape(tab, lams, p, got) ==
      THEN "lambda-in-class"
      ELSE "other"
 
+\* ---- parent() chains of names (definitions and references).  A chain is a sequence of
+\* table rows; LAMBASE + k stands for the k-th lambda of the file (lams), UNUSABLE for a
+\* parent() result that is not a usable Name, UNKNOWN for anything else.
+LAMBASE  == 10000
+UNKNOWN  == 9999
+UNUSABLE == 9998
+StripLams(s) == SelectSeq(s, LAMBDA x : x < LAMBASE)
+LamStart(lams, x) == <<lams[x - LAMBASE][1], lams[x - LAMBASE][2]>>
+\* lambdas may be visited: only real ones that contain the position, before any def/class,
+\* innermost first
+LamsOK(lams, p, s) ==
+  \A j \in 1..Len(s) : s[j] >= LAMBASE =>
+     /\ s[j] - LAMBASE \in 1..Len(lams)
+     /\ PLe(LamStart(lams, s[j]), p)
+     /\ PLt(p, <<lams[s[j] - LAMBASE][3], lams[s[j] - LAMBASE][4]>>)
+     /\ \A i \in 1..(j - 1) : /\ s[i] >= LAMBASE
+                              /\ s[i] - LAMBASE \in 1..Len(lams)
+                              /\ PLt(LamStart(lams, s[j]), LamStart(lams, s[i]))
+NameChainOK(tab, lams, p, own, got) ==
+  /\ StripLams(got) = RefNameChain(tab, p, own)
+  /\ LamsOK(lams, p, got)
+RowsFrom(tab, r) == IF r = 0 THEN <<>> ELSE <<r>> \o RefChain(tab, r)
+\* comps: extents <<l, c, el, ec>> of the comprehensions / generator expressions
+CompDepth(comps, p) ==
+  Cardinality({k \in 1..Len(comps) : PLe(<<comps[k][1], comps[k][2]>>, p) /\ PLt(p, <<comps[k][3], comps[k][4]>>)})
+LamDepth(lams, p) ==
+  Cardinality({k \in 1..Len(lams) : PLe(<<lams[k][1], lams[k][2]>>, p) /\ PLt(p, <<lams[k][3], lams[k][4]>>)})
+\* names of the known shapes of a wrong chain:
+\*   unusable         a parent() result on the way is not a usable Name
+\*   lambda-in-class  the name is inside a lambda, the innermost def/class around is a class, and
+\*                    the class(es) are left out
+\*   anon-in-header   the name is inside a comprehension / lambda written in the HEADER of a
+\*                    def/class (parameter default, annotation, base class), and the chain
+\*                    starts with that def/class itself (create_context applies its header rule
+\*                    only to nodes directly in the header, not through an anonymous scope)
+ChainShape(tab, lams, comps, p, got) ==
+  LET r == RefCtx(tab, p)
+      H == HeaderOf(tab, p)
+  IN IF \E j \in 1..Len(got) : got[j] = UNUSABLE THEN "unusable"
+     ELSE IF r # 0 /\ tab[r].cls /\ InLambda(lams, p) /\ LamsOK(lams, p, got)
+             /\ StripLams(got) = RowsFrom(tab, RefSkipClasses(tab, r))
+     THEN "lambda-in-class"
+     ELSE IF H # {} /\ CompDepth(comps, p) + LamDepth(lams, p) > 0 /\ LamsOK(lams, p, got)
+             /\ \E h \in H : StripLams(got) = RowsFrom(tab, h)
+     THEN "anon-in-header" ELSE "other"
+
 ---------------------------------------------------------------------------
 (* BOUNDED MODEL: programs *)
 CONSTANTS MaxItems, MaxDepth, MaxScopes, MaxExtras, Units, EmitMod, EmitRem,
-          Fixed      \* which get_context repairs the modelled code contains (see header)
+          Fixed,     \* which repairs / loops the modelled code contains (see header)
+          MaxNest,   \* nodes (anonymous scopes) of one nest expression; 0 = no nest items
+          NestKinds, \* subset of {"list", "set", "dict", "gen", "lam"}
+          Plain      \* TRUE: no decorated / async definitions (the nest space: these do not matter
+                     \* for what is inside an expression)
 VARIABLES prog, unit
 vars == <<prog, unit>>
 
-\* item = [k, d, dec, as, x]
+\* item = [k, d, dec, as, x, sh]
 \*   k    "def" | "class"  (header line + indented suite)   "idef" (def f(p): return p)
 \*        "stmt" (v = wv)  "lam" (v = lambda q=df: q)  "comp" (v = [i for i in sq])
 \*        "cont" (v = (wv, NEWLINE uv) with the second line at column unit*x)
 \*        "cmt"  (a comment line at column unit*x; no tokens, pure prefix)
+\*        "nest" (v = <tree of comprehensions / generator expressions / lambdas>, shape sh)
 \*   dec  preceded by a decorator line  @dc(da)         as   async def
+\*   sh   (nest) Seq of nodes [k, par, slot] in preorder: kind, parent node (0 = root),
+\*        slot of the parent it fills: "e" element / lambda body, "i" iterable / default
+\*          list  [E for a3 in I]      set  {E for a3 in I}      gen  (E for a3 in I)
+\*          dict  {a3: E for a3 in I}  lam  (lambda a3=I: E)
+\*        an empty slot "e" is a reference to the node's own variable, an empty slot "i" is
+\*        `sq` (`df` for a lambda); the variable of node n of item i is  chr(96+n) i
 SuiteKinds == {"def", "class"}
 OpenKinds  == {"def", "class", "idef"}
-CodeKinds  == {"def", "class", "idef", "stmt", "lam", "comp", "cont"}
+CodeKinds  == {"def", "class", "idef", "stmt", "lam", "comp", "cont", "nest"}
 IsCode(it)  == it.k \in CodeKinds
 IsOpen(it)  == it.k \in OpenKinds
 HasSuite(it) == it.k \in SuiteKinds
@@ -149,7 +230,16 @@ Need(p) == LET j == LastCode(p, Len(p)) IN j # 0 /\ HasSuite(p[j])
 Cur(p)  == LET j == LastCode(p, Len(p))
            IN IF j = 0 THEN 0 ELSE p[j].d + (IF HasSuite(p[j]) THEN 1 ELSE 0)
 NScopes(p) == Cardinality({i \in 1..Len(p) : IsOpen(p[i])})
-NExtras(p) == Cardinality({i \in 1..Len(p) : p[i].k \in {"idef", "lam", "comp", "cont", "cmt"}})
+NExtras(p) == Cardinality({i \in 1..Len(p) : p[i].k \in {"idef", "lam", "comp", "cont", "cmt", "nest"}})
+
+\* nest shapes
+Child(sh, n, slot) == LET S == {c \in 1..Len(sh) : sh[c].par = n /\ sh[c].slot = slot}
+                      IN IF S = {} THEN 0 ELSE CHOOSE c \in S : TRUE
+RECURSIVE Ancestors(_, _)
+Ancestors(sh, n) == IF n = 0 THEN {} ELSE {n} \cup Ancestors(sh, sh[n].par)
+RightPath(sh) == Ancestors(sh, Len(sh))
+RECURSIVE NodeDepth(_, _)
+NodeDepth(sh, n) == IF n = 0 THEN 0 ELSE 1 + NodeDepth(sh, sh[n].par)
 Complete(p) == p # <<>> /\ ~Need(p) /\ LastCode(p, Len(p)) # 0
 
 Depths(p) == IF Need(p) THEN {Cur(p)} ELSE 0..Cur(p)
@@ -160,8 +250,9 @@ AddOpen(k, d, dec, as) ==
   /\ d \in Depths(prog)
   /\ (k \in SuiteKinds) => (d < MaxDepth /\ Len(prog) + 1 < MaxItems)
   /\ (k = "class") => ~as
+  /\ Plain => (~dec /\ ~as)
   /\ (k = "idef") => (~dec /\ NExtras(prog) < MaxExtras)
-  /\ prog' = Append(prog, [k |-> k, d |-> d, dec |-> dec, as |-> as, x |-> 0])
+  /\ prog' = Append(prog, [k |-> k, d |-> d, dec |-> dec, as |-> as, x |-> 0, sh |-> <<>>])
   /\ UNCHANGED unit
 AddStmt(k, d, x) ==
   /\ Len(prog) < MaxItems
@@ -169,18 +260,39 @@ AddStmt(k, d, x) ==
   /\ (k # "stmt") => NExtras(prog) < MaxExtras
   /\ (k = "cont") => x \in 0..(d + 1)
   /\ (k # "cont") => x = 0
-  /\ prog' = Append(prog, [k |-> k, d |-> d, dec |-> FALSE, as |-> FALSE, x |-> x])
+  /\ prog' = Append(prog, [k |-> k, d |-> d, dec |-> FALSE, as |-> FALSE, x |-> x, sh |-> <<>>])
   /\ UNCHANGED unit
 AddCmt(x) ==
   /\ Len(prog) < MaxItems /\ ~Need(prog) /\ prog # <<>>
   /\ NExtras(prog) < MaxExtras
   /\ x \in 0..(Cur(prog) + 1)
-  /\ prog' = Append(prog, [k |-> "cmt", d |-> Cur(prog), dec |-> FALSE, as |-> FALSE, x |-> x])
+  /\ prog' = Append(prog, [k |-> "cmt", d |-> Cur(prog), dec |-> FALSE, as |-> FALSE, x |-> x, sh |-> <<>>])
+  /\ UNCHANGED unit
+\* a nest starts with its root node and grows node by node while it is the last item; the
+\* nodes are appended in preorder (parent on the rightmost path, slot "e" before slot "i"),
+\* so every tree is built along exactly one path
+AddNest(k, d) ==
+  /\ MaxNest > 0 /\ k \in NestKinds
+  /\ Len(prog) < MaxItems /\ NExtras(prog) < MaxExtras
+  /\ d \in Depths(prog)
+  /\ prog' = Append(prog, [k |-> "nest", d |-> d, dec |-> FALSE, as |-> FALSE, x |-> 0,
+                           sh |-> << [k |-> k, par |-> 0, slot |-> "e"] >>])
+  /\ UNCHANGED unit
+GrowNest(k, par, slot) ==
+  /\ prog # <<>> /\ k \in NestKinds
+  /\ prog[Len(prog)].k = "nest"
+  /\ Len(prog[Len(prog)].sh) < MaxNest
+  /\ par \in RightPath(prog[Len(prog)].sh)
+  /\ Child(prog[Len(prog)].sh, par, slot) = 0
+  /\ (slot = "e") => (Child(prog[Len(prog)].sh, par, "i") = 0)
+  /\ prog' = [prog EXCEPT ![Len(prog)].sh = Append(@, [k |-> k, par |-> par, slot |-> slot])]
   /\ UNCHANGED unit
 Next ==
   \/ \E k \in OpenKinds, d \in 0..MaxDepth, dec \in BOOLEAN, as \in BOOLEAN : AddOpen(k, d, dec, as)
   \/ \E k \in {"stmt", "lam", "comp", "cont"}, d \in 0..MaxDepth, x \in 0..(MaxDepth + 1) : AddStmt(k, d, x)
   \/ \E x \in 0..(MaxDepth + 1) : AddCmt(x)
+  \/ \E k \in NestKinds, d \in 0..MaxDepth : AddNest(k, d)
+  \/ \E k \in NestKinds, par \in 1..MaxNest, slot \in {"e", "i"} : GrowNest(k, par, slot)
 
 ---------------------------------------------------------------------------
 (* LAYOUT: lines, tokens, scope table (shared by Reference and Design; bound to the
@@ -193,8 +305,15 @@ Base(it) == unit * it.d
 KwCol(it) == Base(it) + (IF it.as THEN 6 ELSE 0)
 NameOf(it, i) == <<(IF it.k = "class" THEN 67 ELSE 102), 48 + i>>     \* "C3" / "f3"
 
-Tk(i, ln, s, e, c, inn) == [it |-> i, ln |-> ln, s |-> s, eln |-> ln, e |-> e, c |-> c, inn |-> inn]
-NL(i, ln, s, c)         == [it |-> i, ln |-> ln, s |-> s, eln |-> ln + 1, e |-> 0, c |-> c, inn |-> "none"]
+\* nd / pt: node of the nest and part of the node the token belongs to (0 / "none" elsewhere)
+Tk(i, ln, s, e, c, inn) == [it |-> i, ln |-> ln, s |-> s, eln |-> ln, e |-> e, c |-> c, inn |-> inn,
+                            nd |-> 0, pt |-> "none"]
+NL(i, ln, s, c)         == [it |-> i, ln |-> ln, s |-> s, eln |-> ln + 1, e |-> 0, c |-> c, inn |-> "none",
+                            nd |-> 0, pt |-> "none"]
+\* token of node nd of a nest; pt: "o" the brackets (they belong to the place the node is
+\* written in), "e" element side / everything of a lambda, "f" `for a in`, "i" the iterable
+NTk(i, ln, s, e, c, nd, pt) == [it |-> i, ln |-> ln, s |-> s, eln |-> ln, e |-> e, c |-> c, inn |-> "nest",
+                                nd |-> nd, pt |-> pt]
 
 DecoToks(i, ln, b) ==                      \* @dc(da)
   << Tk(i, ln, b, b + 1, "at", "none"), Tk(i, ln, b + 1, b + 3, "dname", "none"),
@@ -242,6 +361,43 @@ ContToks(i, ln, b, cc) ==                  \* v1 = (wv,   /   uv)
      Tk(i, ln + 1, cc, cc + 2, "cval", "none"), Tk(i, ln + 1, cc + 2, cc + 3, "crpar", "none"),
      NL(i, ln + 1, cc + 3, "nl") >>
 
+\* width of the text of node n
+RECURSIVE NodeW(_, _)
+NodeW(sh, n) ==
+  LET ce == Child(sh, n, "e")
+      ci == Child(sh, n, "i")
+  IN (IF ce = 0 THEN 2 ELSE NodeW(sh, ce)) + (IF ci = 0 THEN 2 ELSE NodeW(sh, ci))
+     + (CASE sh[n].k = "dict" -> 17 [] sh[n].k = "lam" -> 14 [] OTHER -> 13)
+RECURSIVE NodeToks(_, _, _, _, _)
+NodeToks(i, ln, sh, n, c) ==
+  LET ce == Child(sh, n, "e")
+      ci == Child(sh, n, "i")
+      we == IF ce = 0 THEN 2 ELSE NodeW(sh, ce)
+      wi == IF ci = 0 THEN 2 ELSE NodeW(sh, ci)
+      E(col) == IF ce = 0 THEN << NTk(i, ln, col, col + 2, "nref", n, "e") >> ELSE NodeToks(i, ln, sh, ce, col)
+      I(col) == IF ci = 0 THEN << NTk(i, ln, col, col + 2, "nit", n, "i") >> ELSE NodeToks(i, ln, sh, ci, col)
+  IN CASE sh[n].k = "lam" ->                  \* (lambda a1=I: E)
+            << NTk(i, ln, c, c + 1, "nop", n, "o"), NTk(i, ln, c + 1, c + 7, "nlk", n, "e"),
+               NTk(i, ln, c + 8, c + 10, "nlp", n, "e"), NTk(i, ln, c + 10, c + 11, "nleq", n, "e") >>
+            \o I(c + 11) \o << NTk(i, ln, c + 11 + wi, c + 12 + wi, "nlc", n, "e") >>
+            \o E(c + 13 + wi) \o << NTk(i, ln, c + 13 + wi + we, c + 14 + wi + we, "ncp", n, "o") >>
+       [] sh[n].k = "dict" ->                 \* {a1: E for a1 in I}
+            << NTk(i, ln, c, c + 1, "nob", n, "o"), NTk(i, ln, c + 1, c + 3, "nkey", n, "e"),
+               NTk(i, ln, c + 3, c + 4, "ncol", n, "e") >>
+            \o E(c + 5)
+            \o << NTk(i, ln, c + 6 + we, c + 9 + we, "nfor", n, "f"), NTk(i, ln, c + 10 + we, c + 12 + we, "nvar", n, "f"),
+                  NTk(i, ln, c + 13 + we, c + 15 + we, "nin", n, "f") >>
+            \o I(c + 16 + we) \o << NTk(i, ln, c + 16 + we + wi, c + 17 + we + wi, "ncb", n, "o") >>
+       [] OTHER ->                            \* [E for a1 in I]   {E for a1 in I}   (E for a1 in I)
+            << NTk(i, ln, c, c + 1, "nob", n, "o") >>
+            \o E(c + 1)
+            \o << NTk(i, ln, c + 2 + we, c + 5 + we, "nfor", n, "f"), NTk(i, ln, c + 6 + we, c + 8 + we, "nvar", n, "f"),
+                  NTk(i, ln, c + 9 + we, c + 11 + we, "nin", n, "f") >>
+            \o I(c + 12 + we) \o << NTk(i, ln, c + 12 + we + wi, c + 13 + we + wi, "ncb", n, "o") >>
+NestToks(i, ln, b, sh) ==                   \* v1 = <nest>
+  << Tk(i, ln, b, b + 2, "var", "none"), Tk(i, ln, b + 3, b + 4, "op", "none") >>
+  \o NodeToks(i, ln, sh, 1, b + 5) \o << NL(i, ln, b + 5 + NodeW(sh, 1), "nl") >>
+
 ItemToks(it, i, fl) ==
   LET b  == Base(it)
       k  == KwCol(it)
@@ -254,6 +410,7 @@ ItemToks(it, i, fl) ==
        [] it.k = "lam"   -> LamToks(i, fl, b)
        [] it.k = "comp"  -> CompToks(i, fl, b)
        [] it.k = "cont"  -> ContToks(i, fl, b, unit * it.x)
+       [] it.k = "nest"  -> NestToks(i, fl, b, it.sh)
        [] it.k = "cmt"   -> <<>>
 RECURSIVE ToksFrom(_, _, _)
 ToksFrom(p, fl, i) == IF i > Len(p) THEN <<>> ELSE ItemToks(p[i], i, fl[i]) \o ToksFrom(p, fl, i + 1)
@@ -269,6 +426,7 @@ ItemEnd(it, fl) ==
        [] it.k = "comp" -> <<fl, b + 22>>
        [] it.k = "cont" -> <<fl + 1, unit * it.x + 3>>
        [] it.k = "idef" -> <<fl, KwCol(it) + 21>>
+       [] it.k = "nest" -> <<fl, b + 5 + NodeW(it.sh, 1)>>
        [] OTHER -> <<0, 0>>
 \* the items of the suite of i: the maximal run of comments and deeper code after it
 RECURSIVE LastBody(_, _, _, _)
@@ -294,10 +452,28 @@ ScopeRec(p, fl, i) ==
 RECURSIVE TabFrom(_, _, _)
 TabFrom(p, fl, i) == IF i > Len(p) THEN <<>>
                      ELSE (IF IsOpen(p[i]) THEN <<ScopeRec(p, fl, i)>> ELSE <<>>) \o TabFrom(p, fl, i + 1)
+\* extents of the lambdas / comprehensions of a nest, in text order (= token order): a
+\* lambda runs from its keyword to the closing parenthesis (exclusive), a comprehension
+\* from its opening to its closing bracket (inclusive)
+RECURSIVE ExtFrom(_, _, _, _)
+ExtFrom(toks, sh, c, k) ==
+  IF k > Len(toks) THEN <<>>
+  ELSE (IF toks[k].c = c
+        THEN << <<toks[k].ln, toks[k].s, toks[k].ln,
+                  toks[k].s + NodeW(sh, toks[k].nd) - (IF c = "nlk" THEN 2 ELSE 0)>> >>
+        ELSE <<>>) \o ExtFrom(toks, sh, c, k + 1)
 RECURSIVE LamsFrom(_, _, _)
 LamsFrom(p, fl, i) == IF i > Len(p) THEN <<>>
                       ELSE (IF p[i].k = "lam" THEN << <<fl[i], Base(p[i]) + 5, fl[i], Base(p[i]) + 21>> >>
+                            ELSE IF p[i].k = "nest"
+                            THEN ExtFrom(NodeToks(i, fl[i], p[i].sh, 1, Base(p[i]) + 5), p[i].sh, "nlk", 1)
                             ELSE <<>>) \o LamsFrom(p, fl, i + 1)
+RECURSIVE CompsFrom(_, _, _)
+CompsFrom(p, fl, i) == IF i > Len(p) THEN <<>>
+                       ELSE (IF p[i].k = "comp" THEN << <<fl[i], Base(p[i]) + 5, fl[i], Base(p[i]) + 22>> >>
+                             ELSE IF p[i].k = "nest"
+                             THEN ExtFrom(NodeToks(i, fl[i], p[i].sh, 1, Base(p[i]) + 5), p[i].sh, "nob", 1)
+                             ELSE <<>>) \o CompsFrom(p, fl, i + 1)
 
 \* syntactic tree: the def/class whose suite holds item i (parso parent chain)
 RECURSIVE EncFrom(_, _, _)
@@ -320,7 +496,8 @@ Mk(p) ==
       T   |-> ToksFrom(p, fl, 1) \o << [it |-> 0, ln |-> tot + 1, s |-> 0, eln |-> tot + 1, e |-> 0,
                                          c |-> "end", inn |-> "none"] >>,
       tab |-> TabFrom(p, fl, 1),
-      lams |-> LamsFrom(p, fl, 1)]
+      lams |-> LamsFrom(p, fl, 1),
+      comps |-> CompsFrom(p, fl, 1)]
 
 RowOf(M, i) == IF i = 0 THEN 0 ELSE M.row[i]
 
@@ -369,10 +546,35 @@ CreateContext(M, t) ==
 \* answers the scope around the class(es).
 RECURSIVE SkipClasses(_, _)
 SkipClasses(M, c) == IF c = 0 THEN 0 ELSE IF M.p[c].k = "class" THEN SkipClasses(M, M.enc[c]) ELSE c
+\* ---- anonymous contexts of a nest token, innermost first (node numbers of its item).
+\* create_context: parent_scope() finds the comp_for of the element side through
+\* testlist_comp / dictorsetmaker, the sync_comp_for / lambdef itself from inside;
+\* from_scope_node(comp_for) drops the comprehension when node.start_pos >=
+\* comp_for.children[-1].start_pos (the node is in the iterable); the brackets are children
+\* of the atom, i.e. they live where the expression is written.  A lambdef has no header rule.
+RECURSIVE AnonAt(_, _, _)
+AnonAt(sh, n, pt) ==
+  LET up == IF sh[n].par = 0 THEN <<>> ELSE AnonAt(sh, sh[n].par, sh[n].slot)
+  IN IF pt = "o" THEN up
+     ELSE IF sh[n].k # "lam" /\ pt = "i" THEN up
+     ELSE <<n>> \o up
+AnonOf(M, t) == IF t.nd = 0 THEN <<>> ELSE AnonAt(M.p[t.it].sh, t.nd, t.pt)
+\* LambdaName.parent_context = FunctionValue.from_context(create_context(lambdef)): a class
+\* context (and the classes around it) is skipped -- only when the lambda is written
+\* directly in the class body (a CompForContext in between is not a class)
+LamEnc(M, rest, enc, fixed) == IF rest = <<>> /\ ~fixed THEN SkipClasses(M, enc) ELSE enc
+\* the named context the OLD get_context ended in from inside lambdas (walks Name.parent())
+RECURSIVE OldNamed(_, _, _, _)
+OldNamed(M, sh, A, enc) ==
+  IF A = <<>> THEN enc
+  ELSE IF sh[A[1]].k # "lam" THEN OldNamed(M, sh, Tail(A), enc)
+  ELSE OldNamed(M, sh, Tail(A), LamEnc(M, Tail(A), enc, FALSE))
 \* Repair LambdaInClass: get_context leaves a lambda context through
 \* create_context(lambdef node), i.e. the context the lambda is written in.
-NamedContext(M, t) == IF t.inn = "lam" /\ "LambdaInClass" \notin Fixed
-                      THEN SkipClasses(M, CreateContext(M, t)) ELSE CreateContext(M, t)
+NamedContext(M, t) == IF "LambdaInClass" \in Fixed THEN CreateContext(M, t)
+                      ELSE IF t.inn = "lam" THEN SkipClasses(M, CreateContext(M, t))
+                      ELSE IF t.nd # 0 THEN OldNamed(M, M.p[t.it].sh, AnonOf(M, t), CreateContext(M, t))
+                      ELSE CreateContext(M, t)
 
 \* the indentation walk-up of get_context: leave every scope that does not start left
 \* of the cursor column.  Old code: scope = funcdef, whose start_pos is the `def` of an
@@ -430,6 +632,35 @@ QNName(M, i) ==
      ELSE (LET q == QNVal(M, e) IN IF q = None THEN None ELSE Some(q[1] \o <<nm>>))
 DesignFull(mod, q) == IF q = None THEN None ELSE Some(Join(mod \o q[1]))
 
+\* ---- parent() chains in row space (table rows, LAMBASE + k for lambdas, UNUSABLE), for
+\* every identifier token: definitions and references (get_names(references=True) builds
+\* TreeNameDefinition(create_context(name), name) for both).
+RowOfM(M, i) == IF i = 0 THEN 0 ELSE M.row[i]
+NamedRows(M, enc) == IF enc = 0 THEN <<>>
+                     ELSE <<RowOfM(M, enc)>> \o [k \in 1..Len(EncChain(M, enc)) |-> RowOfM(M, EncChain(M, enc)[k])]
+LamIdxAt(lams, l, c) == CHOOSE k \in 1..Len(lams) : lams[k][1] = l /\ lams[k][2] = c
+NestLamIdx(M, it, nd) ==
+  LET k == CHOOSE j \in 1..Len(M.T) : M.T[j].it = it /\ M.T[j].nd = nd /\ M.T[j].c = "nlk"
+  IN LamIdxAt(M.lams, M.T[k].ln, M.T[k].s)
+\* BaseName.parent(): `while context.name is None: context = context.parent_context`
+\* ("CompWhile"; the what-if model without it leaves one comprehension only)
+Budget0 == IF "CompWhile" \in Fixed THEN 99 ELSE 1
+RECURSIVE NChain(_, _, _, _, _)
+NChain(M, it, A, enc, budget) ==
+  IF A = <<>> THEN NamedRows(M, enc)
+  ELSE IF M.p[it].sh[A[1]].k # "lam"
+       THEN (IF budget = 0 THEN <<UNUSABLE>> ELSE NChain(M, it, Tail(A), enc, budget - 1))
+       ELSE <<LAMBASE + NestLamIdx(M, it, A[1])>>
+            \o NChain(M, it, Tail(A), LamEnc(M, Tail(A), enc, "LambdaParent" \in Fixed), Budget0)
+DesignChainRows(M, t) ==
+  IF t.c \in {"param", "aparam"} THEN NamedRows(M, t.it)                  \* param -> its funcdef
+  ELSE IF t.c \in {"lparam", "nlp"} THEN NamedRows(M, M.enc[t.it])       \* lambdef is not searched for
+  ELSE IF t.nd # 0 THEN NChain(M, t.it, AnonOf(M, t), M.enc[t.it], Budget0)
+  ELSE IF t.inn = "lam"
+       THEN <<LAMBASE + LamIdxAt(M.lams, t.ln, Base(M.p[t.it]) + 5)>>
+            \o NamedRows(M, LamEnc(M, <<>>, M.enc[t.it], "LambdaParent" \in Fixed))
+  ELSE NamedRows(M, CreateContext(M, t))                                  \* TreeNameDefinition.parent_context
+
 ---------------------------------------------------------------------------
 (* POSITIONS of the bounded model: every token at start / start+1 / end, and the
    interesting columns of every line prefix (0, 1, each possible keyword column +-).
@@ -438,12 +669,17 @@ DesignFull(mod, q) == IF q = None THEN None ELSE Some(Join(mod \o q[1]))
 ModPath == << <<112, 107>>, <<109, 111, 100>> >>                     \* pk.mod
 PrefixCols(lim) == {c \in {0, 1} \cup UNION {{unit * x, unit * x + 1, unit * x + 6, unit * x + 7} : x \in 0..(MaxDepth + 1)} : c < lim}
 Hint(k) == IF k > 1 THEN k - 1 ELSE 1
+NestPunct == {"nob", "nop", "nlk", "nleq", "nlc", "ncol", "nfor", "nin"}
 TokPositions(T, k) ==
   LET t == T[k]
       adj == T[k + 1].ln = t.ln /\ T[k + 1].s = t.e /\ T[k + 1].c \notin NewlineClasses
-  IN {[l |-> t.ln, c |-> t.s, k |-> Hint(k), on |-> TRUE, cls |-> t.c],
-      [l |-> t.ln, c |-> t.e, k |-> Hint(k), on |-> adj, cls |-> IF adj THEN T[k + 1].c ELSE "after"]}
-     \cup (IF t.s + 1 < t.e THEN {[l |-> t.ln, c |-> t.s + 1, k |-> Hint(k), on |-> TRUE, cls |-> t.c]} ELSE {})
+  IN {[l |-> t.ln, c |-> t.s, k |-> Hint(k), on |-> TRUE, cls |-> t.c]}
+     \* (brackets and keywords inside a nest: the start only -- the end is the start of, or the
+     \*  blank before, the next token of the same expression)
+     \cup (IF t.c \in NestPunct THEN {}
+           ELSE {[l |-> t.ln, c |-> t.e, k |-> Hint(k), on |-> adj, cls |-> IF adj THEN T[k + 1].c ELSE "after"]})
+     \cup (IF t.s + 1 < t.e /\ t.c \notin NestPunct
+           THEN {[l |-> t.ln, c |-> t.s + 1, k |-> Hint(k), on |-> TRUE, cls |-> t.c]} ELSE {})
      \cup (IF k = 1 \/ T[Hint(k)].ln < t.ln
            THEN {[l |-> t.ln, c |-> c, k |-> Hint(k), on |-> FALSE, cls |-> "prefix"] : c \in PrefixCols(t.s)}
            ELSE {})
@@ -462,6 +698,7 @@ KnownDeviations == (IF "AsyncColumn" \in Fixed THEN {} ELSE {"async-def-column"}
               \cup (IF "DedentCont" \in Fixed THEN {} ELSE {"dedented-continuation"})
               \cup (IF "LambdaInClass" \in Fixed THEN {} ELSE {"lambda-in-class"})
 KnownDeviation(M, pos, got) == Shape(M.tab, M.lams, pos, got) \in KnownDeviations
+KnownParentDeviations == IF "LambdaParent" \in Fixed THEN {} ELSE {"lambda-in-class"}
 
 CtxOKm(M) == \A q \in Positions(M) :
   (q.on => LET got == RowOf(M, DesignCtxFrom(M, Pos(q), q.k))
@@ -478,11 +715,26 @@ HintOKm(M) == \A q \in Positions(M) : DesignCtxFrom(M, Pos(q), q.k) = DesignCtx(
 
 RowSeq(M, s) == [k \in 1..Len(s) |-> RowOf(M, s[k])]
 OwnRow(M, t) == IF t.c \in {"param", "aparam"} THEN RowOf(M, t.it) ELSE 0
-DefTokens(T) == {k \in 1..Len(T) : T[k].c \in {"var", "param", "aparam", "lparam", "cvar"}}
+DefClasses == {"var", "param", "aparam", "lparam", "cvar", "nvar", "nlp"}
+RefClasses == {"dname", "darg", "ann", "dflt", "ret", "base", "ibody", "val", "cval", "ldflt", "lbody",
+               "celt", "citer", "nref", "nkey", "nit"}
+DefTokens(T)  == {k \in 1..Len(T) : T[k].c \in DefClasses}
+NameTokens(T) == {k \in 1..Len(T) : T[k].c \in DefClasses \cup RefClasses}
+\* the two transcriptions of parent() agree where both apply (names outside lambdas)
+ChainsAgree(M, t) == (t.c \in {"var", "param", "aparam", "lparam", "cvar"}) =>
+                        RowSeq(M, DesignNameChain(M, t)) = DesignChainRows(M, t)
 ParentOKm(M) ==
   /\ \A i \in Opens(M.p) : RowSeq(M, DesignDefChain(M, i)) = RefChain(M.tab, RowOf(M, i))
-  /\ \A k \in DefTokens(M.T) :
-       RowSeq(M, DesignNameChain(M, M.T[k])) = RefNameChain(M.tab, TStart(M.T[k]), OwnRow(M, M.T[k]))
+  /\ \A k \in NameTokens(M.T) :
+       LET t == M.T[k]
+           got == DesignChainRows(M, t)
+       IN /\ ChainsAgree(M, t)
+          /\ (IF NameChainOK(M.tab, M.lams, TStart(t), OwnRow(M, t), got) THEN TRUE
+              ELSE ChainShape(M.tab, M.lams, M.comps, TStart(t), got) \in KnownParentDeviations) = TRUE
+\* holds iff parent() has no deviation left; must FAIL while "LambdaParent" is not repaired
+ParentStrictm(M) ==
+  \A k \in NameTokens(M.T) :
+     NameChainOK(M.tab, M.lams, TStart(M.T[k]), OwnRow(M, M.T[k]), DesignChainRows(M, M.T[k]))
 FullNameOKm(M) ==
   \A i \in Opens(M.p) :
     FullJudged(M.tab, RowOf(M, i)) =>
@@ -498,6 +750,7 @@ CtxOK      == Complete(prog) => \A M \in {Mk(prog)} : CtxOKm(M)
 CtxStrict  == Complete(prog) => \A M \in {Mk(prog)} : CtxStrictm(M)
 CtxLiteral == Complete(prog) => \A M \in {Mk(prog)} : CtxLiteralm(M)
 ParentOK   == Complete(prog) => \A M \in {Mk(prog)} : ParentOKm(M)
+ParentStrict == Complete(prog) => \A M \in {Mk(prog)} : ParentStrictm(M)
 FullNameOK == Complete(prog) => \A M \in {Mk(prog)} : FullNameOKm(M)
 LayoutOK   == Complete(prog) => \A M \in {Mk(prog)} : LayoutOKm(M)
 HintOK     == Complete(prog) => \A M \in {Mk(prog)} : HintOKm(M)
@@ -517,25 +770,31 @@ DefRec(M, i) ==
       dfull |-> DesignFull(ModPath, QNName(M, i)), dfullv |-> DesignFull(ModPath, QNVal(M, i))]
 NameRec(M, k) ==
   LET t == M.T[k]
-  IN [l |-> t.ln, c |-> t.s, cls |-> t.c, dchain |-> RowSeq(M, DesignNameChain(M, t)),
-      rchain |-> RefNameChain(M.tab, TStart(t), OwnRow(M, t))]
+  IN [l |-> t.ln, c |-> t.s, cls |-> t.c, def |-> t.c \in DefClasses, it |-> t.it, nd |-> t.nd,
+      dchain |-> DesignChainRows(M, t),
+      rchain |-> RefNameChain(M.tab, TStart(t), OwnRow(M, t)),
+      cd |-> CompDepth(M.comps, TStart(t)), ld |-> LamDepth(M.lams, TStart(t))]
 CaseRec ==
   LET M == Mk(prog)
       T == M.T
       ps == SetToSeq(Positions(M))
       os == SetToSeq(Opens(prog))
-      ds == SetToSeq(DefTokens(T))
-  IN [prog |-> prog, unit |-> unit, tab |-> M.tab, lams |-> M.lams,
+      ds == SetToSeq(NameTokens(T))
+  IN [prog |-> prog, unit |-> unit, tab |-> M.tab, lams |-> M.lams, comps |-> M.comps,
       toks |-> [k \in 1..(Len(T) - 1) |-> [l |-> T[k].ln, s |-> T[k].s, e |-> T[k].e, c |-> T[k].c]],
       pos |-> [k \in 1..Len(ps) |-> PosRec(M, ps[k])],
       defs |-> [k \in 1..Len(os) |-> DefRec(M, os[k])],
       names |-> [k \in 1..Len(ds) |-> NameRec(M, ds[k])]]
 KindNo(k) == CASE k = "def" -> 1 [] k = "class" -> 2 [] k = "idef" -> 3 [] k = "stmt" -> 4 [] k = "lam" -> 5
-               [] k = "comp" -> 6 [] k = "cont" -> 7 [] OTHER -> 8
+               [] k = "comp" -> 6 [] k = "cont" -> 7 [] k = "nest" -> 9 [] OTHER -> 8
+NodeNo(nd) == (CASE nd.k = "list" -> 1 [] nd.k = "set" -> 2 [] nd.k = "dict" -> 3 [] nd.k = "gen" -> 4 [] OTHER -> 5)
+              + 7 * nd.par + (IF nd.slot = "i" THEN 3 ELSE 0)
+RECURSIVE ShapeNo(_)
+ShapeNo(sh) == IF sh = <<>> THEN 0 ELSE (NodeNo(sh[1]) + 17 * ShapeNo(Tail(sh))) % 1000003
 RECURSIVE ProgNo(_)
 ProgNo(p) == IF p = <<>> THEN 0
              ELSE (KindNo(p[1].k) + 3 * p[1].d + (IF p[1].dec THEN 5 ELSE 0) + (IF p[1].as THEN 11 ELSE 0)
-                   + 2 * p[1].x + 13 * ProgNo(Tail(p))) % 1000003
+                   + 2 * p[1].x + 19 * ShapeNo(p[1].sh) + 13 * ProgNo(Tail(p))) % 1000003
 CaseNo == ProgNo(prog) + unit
 Emit == (Complete(prog) /\ CaseNo % EmitMod = EmitRem) => PrintT(<<"CASE", ToJson(CaseRec)>>)
 =============================================================================
